@@ -69,6 +69,9 @@ func ValidateServices(i Input) error {
 
 	var errs []error
 
+	// getters become methods of the generated container, so two services must not share one
+	getters := make(map[string]string) // getter => name of the first service that declares it
+
 	for _, n := range maps.Keys(i.Services) {
 		var sErrs []error
 		s := i.Services[n]
@@ -77,6 +80,13 @@ func ValidateServices(i Input) error {
 		if !ptr.Dereference(s.Todo, DefaultServiceTodo) {
 			for _, v := range validators {
 				sErrs = append(sErrs, v(s))
+			}
+			if s.Getter != nil {
+				if first, ok := getters[*s.Getter]; ok {
+					sErrs = append(sErrs, fmt.Errorf("getter: %+q is already used by the service %+q", *s.Getter, first))
+				} else {
+					getters[*s.Getter] = n
+				}
 			}
 		}
 		errs = append(errs, grouperror.Prefix(fmt.Sprintf("%+q: ", n), sErrs...))
@@ -125,7 +135,8 @@ func ValidateServiceGetter(s Service) error {
 	if s.Getter == nil {
 		return nil
 	}
-	if reservedGetters[*s.Getter] {
+	// "Container" is the name of the field the generated type embeds the runtime container in
+	if reservedGetters[*s.Getter] || *s.Getter == "Container" {
 		return fmt.Errorf("getter: %+q is reserved", *s.Getter)
 	}
 
